@@ -686,9 +686,10 @@ class Gen:
     an edit re-samples one parameter of a definition, adds/removes definitions or uses, changes
     how a module is imported, deletes / re-creates a file, breaks / repairs the syntax."""
 
-    def __init__(self, rng: vlib.Rng, nmods: int, wild: bool = True):
+    def __init__(self, rng: vlib.Rng, nmods: int, wild: bool = True, roots: tuple[str, ...] = ()):
         self.r = rng
         self.wild = wild
+        self.roots = set(roots)
         self.mods: dict[str, dict[str, Any]] = {}
         self.ctr = 0
         self.history: dict[str, list[str]] = {}
@@ -902,7 +903,7 @@ class Gen:
             imps[pm] = r.choice(["import", "from", "star", "as", "local"] if self.wild else ["import", "from", "as"])
             return f"import style {m}<-{pm}"
         if kind == "del_mod":
-            if len(live) <= 1:
+            if len(live) <= 1 or m in self.roots:
                 return self.edit()
             self.mods[m]["deleted"] = True
             return f"delete file {m}"
@@ -961,7 +962,8 @@ class Gen:
 
 def gen_history(seed: int, idx: int, mode: dict[str, Any]) -> dict[str, Any]:
     rng = vlib.Rng(seed, f"hist/{idx}")
-    g = Gen(rng, rng.choice([2, 3, 3, 4, 5]), wild=bool(mode.get("wild", True)))
+    g = Gen(rng, rng.choice([2, 3, 3, 4, 5]), wild=bool(mode.get("wild", True)),
+            roots=tuple(c[:-3] for c in mode.get("cmd", []) if c.endswith(".py")))
     files0 = g.files()
     past: dict[str, list[str]] = {p: [t] for p, t in files0.items()}
     cur = dict(files0)
@@ -1129,29 +1131,35 @@ def code_of(m: str) -> str:
     if mm.group("sev") == "note":
         # notes carry no code: classify by their first words (names and punctuation removed)
         w = re.sub(r'"[^"]*"|[^A-Za-z ]', " ", mm.group("msg")).split()
-        if w[:1] == ["def"]:
-            return "note:signature-listing"
+        if w[:1] == ["def"] or mm.group("msg").startswith("    "):
+            return "note:signature-listing"            # indented continuation lines of a signature / member listing
         return "note:" + "-".join(w[:3])
     return mm.group("sev")
 
 
+EDIT_PRIORITY = ["syntax", "file", "import", "base", "del", "add", "decl", "other"]
+
+
 def edit_kind(desc: str) -> str:
-    """Coarse, stable class of an edit description produced by Gen.edit / the scenario streams."""
-    if "+" in desc:
-        return "+".join(sorted({edit_kind(d) for d in desc.split("+")}))
-    d = desc.replace("(same)", "")
-    if d.startswith(("dk:", "test-suite")):
-        return d
-    for pre, k in (("del ", "del-def"), ("add use", "add-use"), ("add provider", "add-def"), ("add derived", "add-def"),
-                   ("import style", "import-style"), ("delete file", "file-del"), ("re-create file", "file-add"),
-                   ("new module", "file-add"), ("reorder", "reorder"), ("syntax", "syntax"), ("touch", "touch"),
-                   ("revert", "revert"), ("noop", "noop")):
-        if d.startswith(pre):
-            return k
-    last = d.rsplit(".", 1)[-1]
-    return {"x": "class-attr", "y": "inst-attr", "m": "method-sig", "mk": "method-kind", "init": "init-sig", "base": "base",
-            "abstract": "abstract", "generic": "generic", "func-param": "func-sig", "special-param": "special-def",
-            "value-param": "value-def"}.get(last, "other")
+    """ONE primary, coarse and stable class of the edit(s) of a step: the first, in the fixed order
+    EDIT_PRIORITY, of the classes of its parts.  syntax = syntax error introduced / repaired; file = file deleted,
+    re-created or added; import = import form changed; base = base class changed; del / add = definition or use
+    deleted / added; decl = a declaration changed (signature, attribute, method kind, alias, value ...);
+    other = revert / touch / reorder."""
+    d0 = desc.replace("(same)", "")
+    if d0.startswith(("dk:", "test-suite")):
+        return d0
+
+    def one(d: str) -> str:
+        for pre, k in (("del ", "del"), ("add use", "add"), ("add provider", "add"), ("add derived", "add"),
+                       ("import style", "import"), ("delete file", "file"), ("re-create file", "file"),
+                       ("new module", "file"), ("reorder", "other"), ("syntax", "syntax"), ("touch", "other"),
+                       ("revert", "other"), ("noop", "other")):
+            if d.startswith(pre):
+                return k
+        return "base" if d.rsplit(".", 1)[-1] == "base" else "decl"
+    kinds = {one(d) for d in d0.split("+")}
+    return next(k for k in EDIT_PRIORITY if k in kinds)
 
 
 def norm_msg(m: str) -> str:
@@ -1180,7 +1188,6 @@ def compare_step(obs: dict[str, Any], prev: dict[str, Any] | None = None, kind: 
         return (f"crash:{exc}:{where}", "daemon raised " + tb.strip().splitlines()[-1][:200] + f" in {where}; fresh run reports {len(f['msgs'])} message(s)")
     df, ff = by_file(d["msgs"]), by_file(f["msgs"])
     if df != ff:
-        dn, fn = [norm_msg(x) for x in d["msgs"]], [norm_msg(x) for x in f["msgs"]]
         if sorted(d["msgs"]) == sorted(f["msgs"]):
             state["order"] = True
             if prev.get("order"):
@@ -1194,25 +1201,21 @@ def compare_step(obs: dict[str, Any], prev: dict[str, Any] | None = None, kind: 
                     if n < last:
                         desc_codes.add(code_of("f" + ln))
                     last = n
-            return ("diag:order-within-file[" + ",".join(sorted(desc_codes)) + "]",
-                    "same diagnostics, different order within a file (the daemon reports these after later lines): daemon " + str(d["msgs"][:4]) + " fresh " + str(f["msgs"][:4]))
-        extra_l = [x for x, n in zip(d["msgs"], dn) if n not in fn]
-        missing_l = [x for x, n in zip(f["msgs"], fn) if n not in dn]
+            what_o = ("same diagnostics, different order within a file (the daemon reports these after later lines): daemon "
+                      + str(d["msgs"][:4]) + " fresh " + str(f["msgs"][:4]))
+            return [(f"diag:order-within-file[{c}]", what_o) for c in sorted(desc_codes)] or [("diag:order-within-file[]", what_o)]
+        fset, dset = set(f["msgs"]), set(d["msgs"])
+        extra_l = [x for x in d["msgs"] if x not in fset]          # exact: file, line, severity, text
+        missing_l = [x for x in f["msgs"] if x not in dset]
         state["extra"] = {norm_msg(x) for x in extra_l}
         state["missing"] = {norm_msg(x) for x in missing_l}
         new_extra = [x for x in extra_l if norm_msg(x) not in prev.get("extra", set())]
         new_missing = [x for x in missing_l if norm_msg(x) not in prev.get("missing", set())]
         if not extra_l and not missing_l:
-            if sorted(dn) == sorted(fn):
-                if prev.get("lines"):
-                    state["lines"] = True
-                    return None
-                state["lines"] = True
-                return ("diag:line-numbers" + at, "same diagnostics up to line numbers / order")
             state["mult"] = True
             if prev.get("mult"):
                 return None
-            return ("diag:multiplicity" + at, "same set of diagnostics, different multiplicity: daemon " + str(len(dn)) + " fresh " + str(len(fn)))
+            return ("diag:multiplicity", "same set of diagnostics, different multiplicity: daemon " + str(len(d["msgs"])) + " fresh " + str(len(f["msgs"])))
         if not new_extra and not new_missing:
             return None
         # one finding per (stale|missed, code); notes carry no edit kind (they follow re-reporting, not the edit)
